@@ -26,5 +26,7 @@ CHECKS = {
     "C14": _lazy("annot", "run_c14"),
     "C16": _lazy("sampler", "run_c16"),
     "C17": _lazy("sampler", "run_c17"),
+    "C18": _lazy("geom", "run_c18"),
+    "C19": _lazy("geom", "run_c19"),
     "C20": _lazy("graph", "run_c20"),
 }
